@@ -124,7 +124,7 @@ func TestZZVerifC02Replay(t *testing.T) {
 			}
 		}
 
-		if cfgs <= 2 {
+		if cfgs <= 2 && len(hdr.RRs) >= 3 {
 			ans := []zzC0102RR{hdr.RRs[0], hdr.RRs[2]}
 			o := z.query(&zzC0102Req{Name: hdr.QName, Qtype: "A", Client: "c1"}, ans, rng, "")
 			w.put(map[string]any{"kind": "sample", "i": l.I, "lists": z.texts, "ans": ans, "obs": o})
